@@ -21,6 +21,8 @@ DROPPED = ['InlineCore, BaseCore and the concrete cores are one C struct `Core` 
            'intrusive list of shared callbacks is presented as a ghost pool: node k is pool[k], `->next` of a registered node is read through NODE_NEXT (live-node check); the pool is a heap object of symbolic size (1..2^40 nodes), the walk is closed by a loop invariant (no unwinding)']
 ASSUMPTIONS = ['threading contract: one thread per Future / Promise object at a time (the consumer role and the producer role are each sequential)',
                'code is oblivious to node addresses other than through ->next and comparison with kEmpty/kResult']
+# real-code drivers that exercise what this unit proves (thorough tier: sanity run on the tree under check)
+DRIVERS = [('ready_witness.cpp', [], 'default')]
 
 COMMON = r'''
 #include "vf.h"
